@@ -109,6 +109,26 @@ Theorem C05_holds : forall c, valid c -> holds c (run_model c) = [].
 Proof. exact holds_model. Qed.
 Print Assumptions C05_holds.
 
+(* the modelled handlers are stateless: in a history of requests on one handler object every
+   step is decided as if it were the only one - the i-th observation is the single-request
+   observation of the i-th request, whatever came before (in particular: a request for system A,
+   granted or denied, never changes the decision for a later request for system B) *)
+Theorem C05_handler_stateless : forall h i,
+  nth_error (run_history h) i = option_map run_model (nth_error h i).
+Proof. exact history_pointwise. Qed.
+Print Assumptions C05_handler_stateless.
+
+Theorem C05_decisions_independent_of_history : forall h1 h2 c d,
+  last (run_history (h1 ++ [c])) d = run_model c /\
+  last (run_history (h1 ++ [c])) d = last (run_history (h2 ++ [c])) d.
+Proof. exact history_stateless. Qed.
+Print Assumptions C05_decisions_independent_of_history.
+
+(* the checker applied step by step accepts the model's history *)
+Theorem C05_holds_history : forall h, valid_history h -> holds_history h (run_history h) = [].
+Proof. exact holds_history_model. Qed.
+Print Assumptions C05_holds_history.
+
 (* ---- non-vacuity ---- *)
 Definition ex_p4 : list (str * pres) :=
   [ ([49; 57; 50; 46; 49; 54; 56; 46; 55; 55; 46; 49; 50; 57], PBytes [192; 168; 77; 129]);   (* 192.168.77.129 *)
